@@ -140,7 +140,9 @@ func execTasks(pool *libsim.Pool, req *wire.Request) ([]taskOutcome, *wire.Resul
 		}
 		out[t].CrashAt = o
 		out[t].Crash = libsim.CrashKind(res.Stderr)
-		cur.Tasks[t] = wire.TaskSpec{Ops: append([]wire.Op{}, cur.Tasks[t].Ops[:o]...)}
+		tr := cur.Tasks[t]
+		tr.Ops = append([]wire.Op{}, cur.Tasks[t].Ops[:o]...)
+		cur.Tasks[t] = tr
 	}
 	return nil, nil, &libsim.InfraError{Msg: "worker keeps dying"}
 }
